@@ -981,9 +981,56 @@ def s_p23(ctx, T, tx, fee, F, A, label):
             ctx.require(z3.SignExt(64, eng.to_bv(got[full], 64)) == q, "[%s] minted quantity" % label, shape="mint quantity differs")
 
 
+def s_p24(ctx, T, tx, fee, F, A, label):
+    """an input locked by a declared policy (`from: P`) with a record datum and a variant redeemer, a burn
+    of `AnyAsset(P, ..)`, a signer and a datum field read from the input's datum, an output back to `P`"""
+    eng = ctx.eng
+    q, price = sym(ctx, "q"), sym(ctx, "vault.price")
+    vlov, gas, tickets = sym(ctx, "vault.lovelace"), sym(ctx, "gas.lovelace"), sym(ctx, "vault.tickets")
+    eng.assume(z3.And(gas - F >= 0, tickets - 1 >= 1))
+    owner = [0x5A] * 28
+    script_addr = [0x70] + POL
+    datum = T.struct(0, [T.bytes(owner), T.num(price)])
+    vu = T.st("Utxo", ref=utxo_ref(T, [1] * 32, 0), address=VecM(script_addr), assets=Agg("CanonicalAssets", None, 0, [MapM("HashMap", [[cls_naked(), True, vlov], [cls_defined(POL, list(b"TICKET")), True, tickets]])]), datum=some(datum), script=none())
+    args = amap([("q", intarg(T, q)), ("alice", A("alice"))])
+    body, _ = finish(ctx, tx, args, amap([("vault", MapM("HashSet", [[vu, True, unit()]])), ("gas", utxo(T, 2, gas))]), fee, label)
+    if body is None:
+        return
+    K = (tuple(POL), tuple(b"TICKET"))
+    bn = check_outputs(ctx, body, [dict(address=script_addr, coin=vlov, assets={K: tickets - 1}, datum=("constr", 0, [("bytes", owner), ("int", price + q)])),
+                                   dict(address=ADDR["alice"], coin=gas - F)], label)
+    g = lambda f: models.deref(body.fields[bn.index(f)])
+    mint = g("mint")
+    ctx.require(mint.variant == "Some", "[%s] the burn is emitted" % label, shape="mint dropped")
+    if mint.variant == "Some":
+        got = {}
+        for pk, pp, pv in models.deref(mint.fields[0]).entries:
+            pol = tuple(models.deref(models.deref(pk).fields[0]).items)
+            for ak, ap, av in models.deref(pv).entries:
+                nm = models.deref(ak)
+                while isinstance(nm, Agg):
+                    nm = models.deref(nm.fields[0])
+                qv = models.deref(av)
+                got[(pol, tuple(nm.items))] = qv.fields[0] if isinstance(qv, Agg) else qv
+        ctx.require(set(got) == {K}, "[%s] the burned asset sits under the declared policy (got %s)" % (label, sorted(got)), shape="mint assets differ")
+        if K in got:
+            ctx.require(z3.SignExt(64, eng.to_bv(got[K], 64)) == -1, "[%s] one ticket is burned" % label, shape="burn quantity differs")
+    rs = g("required_signers")
+    ctx.require(rs.variant == "Some", "[%s] required signers present" % label, shape="signers dropped")
+    if rs.variant == "Some":
+        inner = models.deref(rs.fields[0])
+        while isinstance(inner, Agg):
+            inner = models.deref(inner.fields[0])
+        ctx.require([list(models.deref(models.deref(x).fields[0]).items) for x in inner.items] == [owner], "[%s] the required signer is the datum's owner" % label, shape="signers differ")
+    ins = g("inputs")
+    while isinstance(ins, Agg):
+        ins = models.deref(ins.fields[0])
+    ctx.require(len(ins.items) == 2, "[%s] both inputs are spent" % label, shape="inputs differ")
+
+
 SPECS = {"p01_int_arith": s_p01, "p02_asset_arith": s_p02, "p03_datum_spread": s_p03, "p04_mint_meta": s_p04,
          "p05_lists_concat": s_p05, "p06_locals_env": s_p06, "p07_time": s_p07, "p08_two_inputs": s_p08,
-         "p09_record_order": s_p09, "p10_negate_parens": s_p10, "p11_policy_contexts": s_p11, "p12_nested_access": s_p12, "p13_concat_mint_net": s_p13, "p14_time_back_meta": s_p14, "p15_datum_fields_elsewhere": s_p15, "p16_min_utxo_optional": s_p16, "p17_withdrawal_donation": s_p17, "p18_publish_cert": s_p18, "p19_asset_alias_many": s_p19, "p20_two_txs_by_case": s_p20, "p21_collateral_bool_unit": s_p21, "p22_nested_collections": s_p22, "p23_concat_asset_name": s_p23}
+         "p09_record_order": s_p09, "p10_negate_parens": s_p10, "p11_policy_contexts": s_p11, "p12_nested_access": s_p12, "p13_concat_mint_net": s_p13, "p14_time_back_meta": s_p14, "p15_datum_fields_elsewhere": s_p15, "p16_min_utxo_optional": s_p16, "p17_withdrawal_donation": s_p17, "p18_publish_cert": s_p18, "p19_asset_alias_many": s_p19, "p20_two_txs_by_case": s_p20, "p21_collateral_bool_unit": s_p21, "p22_nested_collections": s_p22, "p23_concat_asset_name": s_p23, "p24_script_spend_burn": s_p24}
 
 
 def _h(name, fn, bounds, tier="quick", **kw):
